@@ -112,6 +112,9 @@ class _GraphIO(collections.UserList["_core.Value"]):
         # This is a shallow copy, so the values are not copied, just the references
         return self.data.copy()
 
+    # copy.copy() must not create a second tracked list that shares the bookkeeping
+    __copy__ = copy
+
     def __setitem__(self, i, item) -> None:
         """Replace an input/output to the node."""
         if isinstance(item, Iterable) and isinstance(i, slice):
@@ -356,6 +359,9 @@ class GraphInitializers(collections.UserDict[str, "_core.Value"]):
     def copy(self) -> dict[str, _core.Value]:  # type: ignore[override]
         """Return a shallow copy as a plain dictionary that is detached from the graph."""
         return self.data.copy()
+
+    # copy.copy() must not create a second mapping bound to the same graph
+    __copy__ = copy
 
     def __ior__(self, other):
         """Update the initializers in place, with the same checks as :meth:`update`."""
